@@ -35,6 +35,7 @@ func (c *posCall) refOf(j int) int {
 	}
 	return 0
 }
+
 type c05Cases struct {
 	Mode     string      `json:"mode"` // "small" | "bn254"
 	P        string      `json:"p"`
